@@ -488,6 +488,22 @@ fn o2(op: &str, a: &str, b: &str) -> String {
 
 const PLAIN: [&str; 14] = ["a", "b", "dir", "f.txt", "x.tar.gz", ".", "..", "", "/", "//", "a/b", "./a", "a/", "_-9"];
 
+/// components that are ordinary NAME characters on unix although they separate elsewhere or mean
+/// something to a shell (basename / dirname get the text through a variable)
+const ODD: [&str; 12] = ["back\\slash.txt", "a\\b", "\\", "c d", "é", "x:y", "*", "a\\", "\\\\srv\\share", "C:\\tools\\x64", " ", "日本 語.md"];
+
+fn gen_odd_path(rng: &mut Rng) -> String {
+    let n = 1 + rng.below(4);
+    let mut s = String::new();
+    for i in 0..n {
+        if i > 0 || rng.chance(1, 4) {
+            s.push('/');
+        }
+        s.push_str(if rng.chance(1, 2) { rng.pick_s(&ODD) } else { rng.pick_s(&PLAIN) });
+    }
+    s
+}
+
 fn gen_plain_path(rng: &mut Rng) -> String {
     let n = 1 + rng.below(5);
     let mut s = String::new();
@@ -544,7 +560,7 @@ impl Prop for C18Prop {
         "C18"
     }
     fn rule(&self) -> &'static str {
-        "histories of 1..40 file commands (writefile, appendfile, readfile, writebinfile, readbinfile, touch, mkdir, cp, mv, rm, rm -r, rmdir, is_path_exists, is_file, is_dir, get_file_size, glob_array <dir>/*) run through the real SDK in a fresh temporary directory per case; paths of 1-4 components from a pool of 12 names (spaces, non-ASCII, with/without extension, hidden, trailing dot), half of them re-used from earlier steps, optional trailing separator and './' components; contents: arbitrary Unicode text incl. empty/NUL/newlines and arbitrary bytes incl. invalid UTF-8. After EVERY step the real directory is walked (names, kinds, file bytes) and compared with the model tree. Directory sources of cp/mv are outside the domain (the model answers skip and the command is not run). 3% of the histories also probe the two recorded finding classes (trailing separator on a written target; cp of a file onto itself). Plus basename/dirname/join_path on path strings over [A-Za-z0-9_./-]. Non-trivial = at least 3 commands; distinct = distinct request."
+        "histories of 1..40 file commands (writefile, appendfile, readfile, writebinfile, readbinfile, touch, mkdir, cp, mv, rm, rm -r, rmdir, is_path_exists, is_file, is_dir, get_file_size, glob_array <dir>/*) run through the real SDK in a fresh temporary directory per case; paths of 1-4 components from a pool of 12 names (spaces, non-ASCII, with/without extension, hidden, trailing dot), half of them re-used from earlier steps, optional trailing separator and './' components; contents: arbitrary Unicode text incl. empty/NUL/newlines and arbitrary bytes incl. invalid UTF-8. After EVERY step the real directory is walked (names, kinds, file bytes) and compared with the model tree. Directory sources of cp/mv are outside the domain (the model answers skip and the command is not run). 3% of the histories also probe the two recorded finding classes (trailing separator on a written target; cp of a file onto itself). Plus basename/dirname/join_path on path strings over [A-Za-z0-9_./-]; basename/dirname also on names with backslashes, blanks, colons, '*', non-ASCII (ordinary name characters on unix). Non-trivial = at least 3 commands; distinct = distinct request."
     }
     fn budget(&self, tier: Tier) -> usize {
         match tier {
@@ -660,7 +676,7 @@ impl Prop for C18Prop {
         out.push(case_of(vec![w("h.txt", "content"), o2("cp", "h.txt", "c1/c2/")], vec!["fixed", "finding-probe"]));
         out.push(case_of(vec![w("f.txt", "content"), o2("cp", "f.txt", "f.txt"), o1("rt", "f.txt")], vec!["fixed", "finding-probe"]));
         // path functions
-        for p in PLAIN {
+        for p in PLAIN.iter().chain(ODD.iter()) {
             for q in ["", "/", "x/", "/x/", "a/./", "../"] {
                 let s = format!("{}{}", q, p);
                 out.push(Case { req: format!("fspath base {}", enc_str(&s)), in_domain: true, nontrivial: false, tags: vec!["basename"] });
@@ -674,8 +690,8 @@ impl Prop for C18Prop {
             // path functions on plain path strings
             let k = rng.below(3);
             let req = match k {
-                0 => format!("fspath base {}", enc_str(&gen_plain_path(rng))),
-                1 => format!("fspath dir {}", enc_str(&gen_plain_path(rng))),
+                0 => format!("fspath base {}", enc_str(&if rng.chance(1, 2) { gen_odd_path(rng) } else { gen_plain_path(rng) })),
+                1 => format!("fspath dir {}", enc_str(&if rng.chance(1, 2) { gen_odd_path(rng) } else { gen_plain_path(rng) })),
                 _ => {
                     let n = 1 + rng.below(4);
                     let items: Vec<String> = (0..n)
